@@ -334,7 +334,7 @@ func execLock(intents []string, st *Stats) (final, outs, oracle []string) {
 			emit(op, res+" "+after)
 			st.Inc(fmt.Sprintf("open:%s:ro=%v,proc0=%v,sameDir=%v", res, ro, proc == 0, d == v))
 			if res == "err" {
-				st.Inc("open-err:" + firstWords(msg, 4))
+				st.Inc("open-err:" + lockFirstWords(msg, 4))
 			}
 			dirs := []int{d % s.nd}
 			if v != d {
@@ -420,7 +420,7 @@ func execLock(intents []string, st *Stats) (final, outs, oracle []string) {
 	return
 }
 
-func firstWords(s string, n int) string {
+func lockFirstWords(s string, n int) string {
 	w := strings.Fields(s)
 	if len(w) > n {
 		w = w[:n]
